@@ -203,7 +203,7 @@ def a_body(f, rng, ncalls):
     for _ in range(rng.range(1, 2)):
         f.emit(I("fill"), "body", rng.choice(A_FILL))
 
-def make_a64(rng, name, shape=None):
+def make_a64(rng, name, shape=None, force=None):
     shape = shape or rng.choice(["frame", "frame", "frame-pairs", "frame-pairs", "frameless", "dwarf-frame", "null-leaf"])
     f = Func("a64", name, shape)
     if shape == "null-leaf":
@@ -227,12 +227,26 @@ def make_a64(rng, name, shape=None):
         f.alloc = n
         return f
     signing = rng.chance(1, 4)
-    npairs = rng.range(1, 4) if shape == "frame-pairs" else 0
+    npairs = rng.choice([1, 2, 3, 4, 5, 5]) if shape == "frame-pairs" else 0       # up to all five callee-saved pairs
+    if force:
+        signing, npairs = force.get("signing", signing), force.get("npairs", npairs)
     alloc = 16 * rng.range(0, 8) if rng.chance(3, 4) else rng.choice([0x1000, 0x2000, 0x5000])
     pairs = [(20, 19), (22, 21), (24, 23), (26, 25), (28, 27)][:npairs]
     if signing:
         f.emit(I("pacibsp"), "prologue", A_PACIBSP)
-    if npairs == 0:
+    subfirst = (force or {}).get("subfirst", rng.chance(1, 3))
+    if subfirst:
+        # the other layout compilers use: one `sub sp` for the whole frame (locals at the bottom), the pairs and
+        # the frame record stored with signed offsets, `add x29, sp, #n`; torn down by loads and one `add sp`
+        local = 16 * rng.range(0, (504 - 16 * (npairs + 1)) // 16)
+        tot = local + 16 * (npairs + 1)
+        f.emit(I("sub", tot), "prologue", a_sub_sp(tot))
+        for k, (a, b) in enumerate(pairs):
+            f.emit(I("stp_off", a, b, local + 16 * k), "prologue", a_stp_off(a, b, local + 16 * k))
+        f.emit(I("stp_off", 29, 30, local + 16 * npairs), "prologue", a_stp_off(29, 30, local + 16 * npairs))
+        f.emit(I("addfp", local + 16 * npairs), "prologue", a_add_fp_sp(local + 16 * npairs))
+        alloc = 0
+    elif npairs == 0:
         f.emit(I("stp_pre", 29, 30, -16), "prologue", a_stp_pre(29, 30, -16))
         f.emit(I("addfp", 0), "prologue", a_add_fp_sp(0))
     else:
@@ -251,7 +265,12 @@ def make_a64(rng, name, shape=None):
     a_body(f, rng, rng.range(1, 3))
     if alloc:
         f.emit(I("add", alloc), "epilogue", a_add_sp(alloc))
-    if npairs == 0:
+    if subfirst:
+        f.emit(I("ldp_off", 29, 30, local + 16 * npairs), "epilogue", a_ldp_off(29, 30, local + 16 * npairs))
+        for k, (a, b) in reversed(list(enumerate(pairs))):
+            f.emit(I("ldp_off", a, b, local + 16 * k), "epilogue", a_ldp_off(a, b, local + 16 * k))
+        f.emit(I("add", tot), "epilogue", a_add_sp(tot))
+    elif npairs == 0:
         f.emit(I("ldp_post", 29, 30, 16), "epilogue", a_ldp_post(29, 30, 16))
     else:
         tot = f.pre_tot
@@ -361,6 +380,10 @@ def make_program(rng, arch, nfuncs=8):
     for sh in need:
         if sh not in [f.shape for f in funcs]:
             funcs.append(mk(rng, "f%d" % len(funcs), sh))
+    if arch == "a64":
+        # the longest prologue of the grammar: pacibsp, all five callee-saved pairs, the frame record (then add x29, sub sp)
+        funcs.append(make_a64(rng, "f%d" % len(funcs), "frame-pairs", force=dict(signing=True, npairs=5, subfirst=False)))
+        funcs.append(make_a64(rng, "f%d" % len(funcs), "frame-pairs", force=dict(signing=rng.chance(1, 2), npairs=5, subfirst=True)))
     if arch == "x86":
         # six saved registers with rbp pushed last / first (every slot of the permutation in use)
         funcs.append(make_x86(rng, "f%d" % len(funcs), "frameless", force_saved=[15, 14, 13, 12, RBX, RBP]))
